@@ -1571,13 +1571,78 @@ def units(tier, seed):
   weight = dict(rnn=0, mha=1, fn=2, dec=3, cell=4)
   us.sort(key=lambda u: (-1 if u.get('api') == 'both' else weight[u['sec']],
                          -max(u.get('Ts', [u.get('T', 0)]))))
+  us.append(dict(sec='masks'))
   for i, u in enumerate(us):
     u['i'] = i
   return us
 
 
+def _run_masks(cx, unit):
+  """combine_masks (Linen and NNX) over every ordered tuple of <= 4 operands from a pool of
+  boolean masks and None equals the logical AND of the non-None operands; make_attention_mask
+  / make_causal_mask equal their documented formulas."""
+  import itertools
+  import numpy as np
+  import jax.numpy as jnp
+  import flax.linen as nn
+  from flax import nnx
+  res = cx.res
+  T = 3
+  pool = {
+    'causal': np.tril(np.ones((T, T), bool)),
+    'padL': np.array([[0, 1, 1]] * T, bool),         # left padding: position 0 is padding
+    'hole': np.array([[1, 0, 1]] * T, bool),
+    'anti': np.triu(np.ones((T, T), bool)),
+    'none': None,
+  }
+  names = list(pool)
+  apis = {'linen': nn.combine_masks, 'nnx': nnx.combine_masks}
+  for n in range(1, 5):
+    for combo in itertools.product(names, repeat=n):
+      ms = [pool[c] for c in combo]
+      real = [m for m in ms if m is not None]
+      exp = None
+      if real:
+        exp = np.ones((1, 1, T, T), bool)
+        for m in real:
+          exp = exp & m[None, None]
+      for api, fn in apis.items():
+        res['evals'] += 1
+        try:
+          got = fn(*[None if m is None else jnp.asarray(m)[None, None] for m in ms],
+                   dtype=jnp.bool_)
+        except Exception as e:  # noqa
+          core.violation(res, f'combine_masks-raises|{api}|{combo}', f'{type(e).__name__}: {e}',
+                         dict(api=api, masks=list(combo)))
+          continue
+        ok = (got is None) if exp is None else (got is not None and
+                                                np.array_equal(np.asarray(got), exp))
+        if not ok:
+          core.violation(res, f'combine_masks|{api}|{combo}',
+                         'combine_masks is not the logical AND of its non-None operands',
+                         dict(api=api, masks=list(combo)))
+      if len(real) >= 3:
+        res['nontrivial'].append(core.h(['cm', combo]))
+      core.outcome(res, f'combine:{len(real)}-masks')
+  # make_attention_mask / make_causal_mask
+  for lens in itertools.product(range(0, T + 1), repeat=2):
+    q = (np.arange(T) < lens[0])
+    k = (np.arange(T) < lens[1])
+    for api, mod in (('linen', nn), ('nnx', nnx)):
+      res['evals'] += 2
+      am = np.asarray(mod.make_attention_mask(jnp.asarray(q)[None], jnp.asarray(k)[None],
+                                              dtype=jnp.bool_))
+      if not np.array_equal(am, (q[:, None] & k[None, :])[None, None]):
+        core.violation(res, f'make_attention_mask|{api}|{lens}', 'not the outer product of the '
+                       'two validity vectors', dict(api=api, lens=list(lens)))
+      cm = np.asarray(mod.make_causal_mask(jnp.zeros((1, T)), dtype=jnp.bool_))
+      if not np.array_equal(cm, np.tril(np.ones((T, T), bool))[None, None]):
+        core.violation(res, f'make_causal_mask|{api}', 'not lower triangular', dict(api=api))
+  res['samples'].append(dict(sec='masks', pool=names, max_operands=4))
+
+
 def run_unit(unit):
   cx = _Ctx(unit)
   {'fn': _run_fn, 'mha': _run_mha, 'dec': _run_dec, 'rnn': _run_rnn,
-   'cell': _run_cell}[unit['sec']](cx, unit)
+   'cell': _run_cell, 'masks': _run_masks}[unit['sec']](cx, unit)
   return cx.res
